@@ -174,7 +174,7 @@ func (h *fasthttpHandler) readReqMsg(ctx *fasthttp.RequestCtx) *dnsmsg.Msg {
 		}
 		buf := pool.GetBuf(msgSize)
 		defer pool.ReleaseBuf(buf)
-		_, err := base64.RawURLEncoding.Decode(buf, base64Dns)
+		n, err := base64.RawURLEncoding.Decode(buf, base64Dns)
 		if err != nil {
 			h.logger.Warn().
 				Object("request", (*fasthttpReqLoggerObj)(ctx)).
@@ -183,7 +183,7 @@ func (h *fasthttpHandler) readReqMsg(ctx *fasthttp.RequestCtx) *dnsmsg.Msg {
 			ctx.SetStatusCode(fasthttp.StatusBadRequest)
 			return nil
 		}
-		reqWireMsg = buf
+		reqWireMsg = buf[:n] // the decoder skips newlines: n may be less than DecodedLen
 
 	case ctx.IsPost():
 		// Check Content-Type header
